@@ -34,6 +34,70 @@ fn run(ctx: &Ctx) {
     ctx.run_tape("dtls_many", dtls_many, ctx.pick(60_000, 300_000), 1500);
     ctx.run_tape("alias", alias, ctx.pick(100_000, 400_000), 500);
     ctx.run_tape("many_raw", many_raw, ctx.pick(100_000, 400_000), 96);
+    // buffers of more than 10 MiB of valid records (a capture file, a long-lived connection's buffer): 700 records of 2^14 bytes, then two
+    // small ones - no byte budget, offset or count limit may cut the list short
+    ctx.run_fn("huge_buffers", true, "11 MiB of valid records (700 x 16 KiB, then a ServerHelloDone and an alert) through tls_parser_many and parse_dtls_plaintext_records, against the single-record loop", |obs| {
+        // TLS
+        let mut buf: Vec<u8> = Vec::with_capacity(12 << 20);
+        for k in 0..700usize {
+            buf.extend_from_slice(&[0x17, 3, 3, 0x40, 0x00]);
+            buf.extend(std::iter::repeat(k as u8).take(16384));
+        }
+        buf.extend(MRecord { ctype: 0x16, version: 0x0303, msgs: vec![MMsg::Hs(MHs::ServerDone(vec![]))], padding: vec![] }.to_bytes());
+        buf.extend(MRecord { ctype: 0x15, version: 0x0303, msgs: vec![MMsg::Alert(1, 0)], padding: vec![] }.to_bytes());
+        let want = guard("parse_tls_plaintext loop", || {
+            let (mut off, mut hdrs) = (0usize, Vec::new());
+            while off < buf.len() {
+                match parse_tls_plaintext(&buf[off..]) {
+                    Ok((rem, p)) => {
+                        hdrs.push((p.hdr.record_type.0, p.hdr.len, p.msg.len()));
+                        off = buf.len() - rem.len();
+                    }
+                    Err(_) => break,
+                }
+            }
+            (off, hdrs)
+        })?;
+        ensure!(want.1.len() == 702 && want.0 == buf.len(), "harness:c16-huge", "the loop decoded {} records", want.1.len());
+        let got = guard("tls_parser_many", || tls_parser_many(&buf).map(|(rem, v)| (buf.len() - rem.len(), v.iter().map(|p| (p.hdr.record_type.0, p.hdr.len, p.msg.len())).collect::<Vec<_>>())).map_err(|e| format!("{:?}", e.map(|x| x.code))))?;
+        obs.evals_add(1);
+        match got {
+            Ok((off, v)) => ensure!(v == want.1 && off == want.0, "C16:huge:tls", "tls_parser_many on {} bytes of valid records returned {} record(s) and consumed {} bytes; repeated single-record parsing gives {} and {}", buf.len(), v.len(), off, want.1.len(), want.0),
+            Err(e) => return fail("C16:huge:tls", format!("tls_parser_many on {} bytes of valid records failed with {}", buf.len(), e)),
+        }
+        obs.nontrivial(buf.len() as u64);
+        // DTLS: 700 handshake fragments of 16372 bytes (record length 16384), then a ChangeCipherSpec and an alert record
+        let mut dbuf: Vec<u8> = Vec::with_capacity(12 << 20);
+        for k in 0..700usize {
+            let frag = MDtlsHs { msg_type: 11, length: 0xff_0000, message_seq: 1, fragment_offset: (k * 16372) as u32, fragment_length: 16372, body: MDtlsBody::Fragment(vec![k as u8; 16372]) };
+            dbuf.extend(MDtlsRecord { ctype: 0x16, version: 0xfefd, epoch: (k / 300) as u16, seq: k as u64, msgs: vec![MDtlsMsg::Hs(frag)] }.to_bytes());
+        }
+        dbuf.extend(MDtlsRecord { ctype: 0x14, version: 0xfefd, epoch: 2, seq: 700, msgs: vec![MDtlsMsg::Ccs] }.to_bytes());
+        dbuf.extend(MDtlsRecord { ctype: 0x15, version: 0xfefd, epoch: 3, seq: 0, msgs: vec![MDtlsMsg::Alert(1, 0)] }.to_bytes());
+        let want = guard("parse_dtls_plaintext_record loop", || {
+            let (mut off, mut hdrs) = (0usize, Vec::new());
+            while off < dbuf.len() {
+                match parse_dtls_plaintext_record(&dbuf[off..]) {
+                    Ok((rem, p)) => {
+                        hdrs.push((p.header.content_type.0, p.header.epoch, p.header.sequence_number, p.header.length, p.messages.len()));
+                        off = dbuf.len() - rem.len();
+                    }
+                    Err(_) => break,
+                }
+            }
+            (off, hdrs)
+        })?;
+        ensure!(want.1.len() == 702 && want.0 == dbuf.len(), "harness:c16-huge", "the DTLS loop decoded {} records", want.1.len());
+        let got = guard("parse_dtls_plaintext_records", || parse_dtls_plaintext_records(&dbuf).map(|(rem, v)| (dbuf.len() - rem.len(), v.iter().map(|p| (p.header.content_type.0, p.header.epoch, p.header.sequence_number, p.header.length, p.messages.len())).collect::<Vec<_>>())).map_err(|e| format!("{:?}", e.map(|x| x.code))))?;
+        obs.evals_add(1);
+        match got {
+            Ok((off, v)) => ensure!(v == want.1 && off == want.0, "C16:huge:dtls", "parse_dtls_plaintext_records on {} bytes of valid records returned {} record(s) and consumed {} bytes; repeated single-record parsing gives {} and {}", dbuf.len(), v.len(), off, want.1.len(), want.0),
+            Err(e) => return fail("C16:huge:dtls", format!("parse_dtls_plaintext_records on {} bytes of valid records failed with {}", dbuf.len(), e)),
+        }
+        obs.nontrivial(dbuf.len() as u64);
+        obs.sample(json!({"tls_bytes": buf.len(), "dtls_bytes": dbuf.len(), "records_each": 702}));
+        Ok(())
+    });
 }
 
 fn ending(t: &mut Tape, dtls: bool, valid: &[u8]) -> (&'static str, Vec<u8>) {
